@@ -56,8 +56,8 @@ def make_world(kind, initial, shape=0):
         ctx['other'] = other
         import collections
         collections.deque.extend(other._messages, [portsim.msg_of(k + 5000) for k in initial])
-    elif kind == 'multi':
-        kids = [sched.instrument(P.EchoPort()), sched.instrument(P.EchoPort())]
+    elif kind in ('multi', 'multi1'):
+        kids = [sched.instrument(P.EchoPort()), sched.instrument(P.EchoPort())] if kind == 'multi' else [sched.instrument(P.EchoPort())]
         # the member ports as a list, or as any other iterable a caller has them in (a generator, a map, a dict view)
         p = sched.instrument(P.MultiPort(kids if shape % 3 == 0 else (k for k in kids) if shape % 3 == 2 else
                                          {id(k): k for k in kids}.values()))
@@ -111,7 +111,7 @@ def make_world(kind, initial, shape=0):
         ctx['guards'] = [(ctx['wire'], p._lock)]
     elif kind == 'ioport':
         ctx['guards'] = [(ctx['input']._messages, ctx['input']._lock), (ctx['wire'], o._lock)]
-    elif kind == 'multi':
+    elif kind in ('multi', 'multi1'):
         ctx['guards'] = [(k._messages, k._lock) for k in ctx['kids']] + [(p._messages, p._lock)]
     ctx['initial'] = {id(target._messages): list(initial)} if kind != 'wire' else {}
     if kind == 'cross':
@@ -147,7 +147,11 @@ def thread_fn(port, calls, record, ctx=None):
                 out.append(('fwd', m))
                 del it
             elif c[0] == 'poll':
+                if ctx is not None:
+                    ctx.setdefault('calls', []).append(('start', id(record), None))
                 r = port.poll()
+                if ctx is not None:
+                    ctx['calls'].append(('end', id(record), r))
                 out.append(('got', r))
             elif c[0] == 'pending':
                 out.append(('many', list(port.iter_pending())))
@@ -275,14 +279,14 @@ def judge(prog, ob):
         return 'the same object was handed out twice'
     port = ob['port']
     mult = 2 if kind == 'multi' else 1
-    if kind in ('echo', 'ioport', 'multi'):
+    if kind in ('echo', 'ioport', 'multi', 'multi1'):
         source = (list(initial) + all_sent) if kind != 'ioport' else list(initial)
         # drain what is left
         rest = []
         try:
             import collections
             tgt = ob['ctx'].get('input', port)
-            if kind == 'multi':
+            if kind in ('multi', 'multi1'):
                 for k in ob['ctx']['kids']:
                     rest += [portsim.ident(m) for m in collections.deque.__iter__(k._messages)]
             rest += [portsim.ident(m) for m in collections.deque.__iter__(tgt._messages)]
@@ -323,6 +327,25 @@ def judge(prog, ob):
         if not seg(0, [0] * len(queues)):
             return (f'the bytes on the wire {wire} are not a sequence of whole encodings of the sent messages, per sender in order '
                     f'{queues} (mixed byte-wise, lost, doubled or reordered)')
+    if kind == 'multi1':
+        # one member port: a MultiPort is then a pipe.  Two poll() calls that do not overlap in time (the first returned before
+        # the second was entered, whichever threads made them) hand out messages of one sender in the order sent
+        done = []          # (message id) of the calls that have ended, in order of ending; checked at each later start
+        open_since = {}
+        ended_before = {}
+        for what, who, val in ob['ctx'].get('calls', []):
+            if what == 'start':
+                ended_before[who] = list(done)
+            else:
+                if val is not None:
+                    k = portsim.ident(val)
+                    for i, ks in sent_by.items():
+                        if k in ks:
+                            later = [e for e in ended_before.get(who, []) if e in ks and ks.index(e) > ks.index(k)]
+                            if later:
+                                return (f'a poll() entered after another poll() had already returned message {later[0]} of sender {i} '
+                                        f'returned the earlier message {k} of that sender (sent in the order {ks})')
+                    done.append(k)
     # per-sender order as seen in the global pop order of the trace
     if kind == 'echo':
         for i, ks in sent_by.items():
@@ -537,6 +560,8 @@ def gen_programs(ck):
     # real-time messages (their only attribute is `time`): copy-on-send holds for them as well
     progs.append(('echo', [], [[('sendrt', next(ids)), ('sendrt', next(ids))], [('poll',), ('poll',)]]))
     progs.append(('multi', [], [[('sendrt', next(ids))], [('poll',), ('poll',)]]))
+    a_, b_, c_ = next(ids), next(ids), next(ids)
+    progs.append(('multi1', [], [[('send', a_), ('send', b_), ('send', c_)], [('poll',)], [('poll',)], [('poll',)]]))
     return progs
 
 
